@@ -308,3 +308,200 @@ func (ft *funcTr) refuseMayFailExpr(e ast.Expr) {
 		ft.t.fail(c, "call of %s, which may end in a no-return call, inside an expression (supported: f(args), x, y := f(args), x, y = f(args) as a whole statement)", key)
 	}
 }
+
+// ---------------------------------------------------------------- local pointers as state
+//
+//	Segment.State may also name a local variable of the function that is a pointer to a table
+//	struct (f := &xs[i]; ...; f.Data = data): inside the segment it is the struct's value, field
+//	assignments rebind it, it belongs to V when the segment assigns it, and a return inside the
+//	segment carries its value, exactly as for a pointer receiver.  What the pointer points INTO
+//	(the slice element) is not represented: that the caller puts the value back where the
+//	pointer points is part of the hand-written composition of the segments.
+
+// segLocalState: the local variable (not a parameter) of the function with this name, when it is
+// a pointer to a table struct and the only variable of that name.
+func (ft *funcTr) segLocalState(name string) *types.Var {
+	var found *types.Var
+	n := 0
+	for id, obj := range ft.t.info.Defs {
+		v, ok := obj.(*types.Var)
+		if !ok || v.IsField() || id.Name != name || id.Pos() < ft.fd.Pos() || id.Pos() >= ft.fd.End() {
+			continue
+		}
+		n++
+		found = v
+	}
+	if n != 1 || ft.t.kindOf(found.Type()) != kPtrStruct {
+		return nil
+	}
+	ft.ext.locals = append(ft.ext.locals, found)
+	return found
+}
+
+func (ft *funcTr) segLocalStateVar(v *types.Var) bool {
+	if ft.ext == nil {
+		return false
+	}
+	for _, l := range ft.ext.locals {
+		if l == v {
+			return true
+		}
+	}
+	return false
+}
+
+// dropDeadJumps: what follows a call statement of a no-return function in its block is dead
+// code (the table's claim, checked on the declaration: the function ends in panic and cannot
+// return).  Go's compiler does not know that, so sources put a continue / break / return there
+// to satisfy it; those jump statements are dropped.  Anything else after a no-return call stays
+// refused as unreachable code, and so does all of it outside a Segment.
+func (ft *funcTr) dropDeadJumps(s ast.Stmt, rest []ast.Stmt) []ast.Stmt {
+	if len(rest) == 0 || !ft.inSegment() || !isNoReturnStmt(s) {
+		return rest
+	}
+	for _, r := range rest {
+		switch r.(type) {
+		case *ast.BranchStmt, *ast.ReturnStmt:
+		default:
+			return rest
+		}
+	}
+	return nil
+}
+
+// segPureFieldRead: inside a segment, e is x.f for a variable x that is a pointer to a table
+// struct denoted by the struct's value (the receiver, a state variable): the read cannot panic
+// (that x is not nil is the table's claim, as everywhere such a pointer is read).
+func (ft *funcTr) segPureFieldRead(e ast.Expr) bool {
+	if !ft.inSegment() {
+		return false
+	}
+	sel, ok := ast.Unparen(e).(*ast.SelectorExpr)
+	if !ok {
+		return false
+	}
+	s := ft.t.info.Selections[sel]
+	if s == nil || s.Kind() != types.FieldVal || len(s.Index()) != 1 {
+		return false
+	}
+	id, ok := ast.Unparen(sel.X).(*ast.Ident)
+	if !ok {
+		return false
+	}
+	v, ok := ft.isLocal(ft.t.info.Uses[id])
+	if !ok || ft.t.kindOf(v.Type()) != kPtrStruct {
+		return false
+	}
+	return v == ft.t.recvVar(ft.fd) || ft.segStateVar(v)
+}
+
+// ---------------------------------------------------------------- written maps in fields: two more harmless uses
+//
+// methods.go (checkMapFields) keeps a map held in a field of a Partial struct from being copied:
+// the field may only be indexed or assigned make(...).  Two more uses copy nothing: the element
+// f: make(...) of a struct literal (the map is made for this struct), and len(x.f) / range x.f.
+
+// mapFieldMadeInLiteral: the element kv of a struct literal is f: make(...).
+func (t *translator) mapFieldMadeInLiteral(kv *ast.KeyValueExpr) bool {
+	c, ok := ast.Unparen(kv.Value).(*ast.CallExpr)
+	if !ok {
+		return false
+	}
+	id, ok := ast.Unparen(c.Fun).(*ast.Ident)
+	if !ok {
+		return false
+	}
+	b, ok := t.info.Uses[id].(*types.Builtin)
+	return ok && b.Name() == "make"
+}
+
+// mapFieldReadOnlyUse: parent is len(use) or a range statement over use.
+func (t *translator) mapFieldReadOnlyUse(parent ast.Node, use ast.Expr) bool {
+	switch p := parent.(type) {
+	case *ast.RangeStmt:
+		return ast.Unparen(p.X) == use
+	case *ast.CallExpr:
+		if id, ok := ast.Unparen(p.Fun).(*ast.Ident); ok && len(p.Args) == 1 && ast.Unparen(p.Args[0]) == use {
+			b, ok := t.info.Uses[id].(*types.Builtin)
+			return ok && b.Name() == "len"
+		}
+	}
+	return false
+}
+
+// ---------------------------------------------------------------- v, ok := m[k] on a written map
+//
+//	v, ok := m[k] (or v, ok = m[k]) on a map of Config.RefMaps is go_mapref_lookup zero m k:
+//	the pair (newest binding of k, true), or (zero value, false) for an absent key or the nil
+//	map (vocabulary Lib/GoSemFail.v).  Inside a Segment only.
+
+func (ft *funcTr) isCommaOkRefMap(e ast.Expr) bool {
+	x, ok := ast.Unparen(e).(*ast.IndexExpr)
+	if !ok || !ft.inSegment() {
+		return false
+	}
+	tvx, ok := ft.t.info.Types[x]
+	if !ok {
+		return false
+	}
+	if _, isTuple := tvx.Type.(*types.Tuple); !isTuple {
+		return false
+	}
+	return ft.t.kindOf(ft.t.info.Types[x.X].Type) == kRefMap
+}
+
+func (ft *funcTr) refMapLookup(x *ast.IndexExpr) ([]pre, string, bool) {
+	if !ft.isCommaOkRefMap(x) {
+		return nil, "", false
+	}
+	t := ft.t
+	XT := t.info.Types[x.X].Type
+	p1, base := ft.expr(x.X, nil)
+	p2, idx := ft.expr(x.Index, types.Unalias(XT).Underlying().(*types.Map).Key())
+	return append(p1, p2...), "(go_mapref_lookup " + t.zero(x, t.refMapElem(XT)) + " " + base + " " + idx + ")", true
+}
+
+// segPtrFieldArgOK (hook in checkAliasing, rule 3): inside a segment the pointer-valued field
+// read x.f -- x a pointer to a table struct denoted by its value, f a field the table denotes
+// whose type is a pointer to a table struct -- is handed directly to a table library function
+// (txtar.Format(ts.archive)): the function gets the value of the struct behind the field (that
+// the pointer is not nil is the table's claim, as for the chains of segstate.go).
+func (ft *funcTr) segPtrFieldArgOK(e ast.Expr) bool {
+	if !ft.inSegment() {
+		return false
+	}
+	if id, isId := e.(*ast.Ident); isId {
+		// the field name of such a read
+		if p, ok := ft.parents[id].(*ast.SelectorExpr); ok && p.Sel == id {
+			return ft.segPtrFieldArgOK(p)
+		}
+		return false
+	}
+	sel, ok := e.(*ast.SelectorExpr)
+	if !ok {
+		return false
+	}
+	s := ft.t.info.Selections[sel]
+	if s == nil || s.Kind() != types.FieldVal {
+		return false
+	}
+	if tv, ok := ft.t.info.Types[e]; !ok || ft.t.kindOf(tv.Type) != kPtrStruct {
+		return false
+	}
+	c, ok := ft.up(sel).(*ast.CallExpr)
+	if !ok {
+		return false
+	}
+	isArg := false
+	for _, a := range c.Args {
+		if ast.Unparen(a) == ast.Expr(sel) {
+			isArg = true
+		}
+	}
+	if !isArg {
+		return false
+	}
+	key, _, _ := ft.t.libKey(c)
+	_, ok = ft.t.cfg.Lib[key]
+	return ok
+}
